@@ -292,7 +292,6 @@ density_sketch<T, K, A> density_sketch<T, K, A>::deserialize(std::istream& is, c
   if (!is.good()) throw std::runtime_error("error reading from std::istream");
 
   // levels arrays
-  size_t pt_size = sizeof(T) * dim;
   Levels levels(allocator);
   int64_t num_to_read = num_retained; // num_retrained is uint32_t so this allows error checking
   while (num_to_read > 0) {
@@ -303,10 +302,9 @@ density_sketch<T, K, A> density_sketch<T, K, A>::deserialize(std::istream& is, c
     Level lvl(allocator);
     lvl.reserve(level_size);
     for (uint32_t i = 0; i < level_size; ++i) {
-      Vector pt(dim, 0, allocator);
-      read(is, pt.data(), pt_size);
-      if (!is.good()) throw std::runtime_error("error reading from std::istream");
-      lvl.push_back(pt);
+      Vector pt(allocator);
+      read(is, pt, dim); // dim came from the image: the point grows as its data arrives
+      lvl.push_back(std::move(pt));
     }
     levels.push_back(lvl);
     num_to_read -= lvl.size();
